@@ -65,7 +65,7 @@ class PostgreSQLQueryBuilder(QueryBuilder):
                 self._distinct_on.append(field)
 
     def _distinct_sql(self, ctx: SqlContext) -> str:
-        distinct_ctx = ctx.copy(with_alias=True)
+        distinct_ctx = ctx.copy(with_alias=True, subquery=True)
         if self._distinct_on:
             return "DISTINCT ON({distinct_on}) ".format(
                 distinct_on=",".join(term.get_sql(distinct_ctx) for term in self._distinct_on)
@@ -154,7 +154,7 @@ class PostgreSQLQueryBuilder(QueryBuilder):
         self._returns.append(function)
 
     def _returning_sql(self, ctx: SqlContext) -> str:
-        returning_ctx = ctx.copy(with_alias=True)
+        returning_ctx = ctx.copy(with_alias=True, subquery=True)
         return " RETURNING {returning}".format(
             returning=",".join(term.get_sql(returning_ctx) for term in self._returns),
         )
